@@ -1,7 +1,7 @@
 /-
   C12 lemmas, part b: the `learned` invariant over steps and traces; draining.
 -/
-import Proofs.SysEventsC12a
+import Proofs.SysEventsC12cb
 namespace Hap.Sys
 
 /-- facts about the acting connection that every stage of a request preserves -/
@@ -14,26 +14,33 @@ structure Live (s : St) (p : ObjId) : Prop where
 theorem live_of_rel {b : Option Addr} {s s' : St} {p : ObjId} (hr : Rel b s s') (hA' : InvA s') (h : Live s p) : Live s' p :=
   ⟨hA', uniq_of_rel hr h.u, by rw [hr.nobj]; exact h.lt, by rw [hr.lost]; exact h.nl⟩
 
-theorem invL_putChars (c : Cfg) (h12 : c.fix12 = true) (hcb : ∀ x, c.cb x = Callback.none) (s : St) (p : ObjId) (x : Cid) (ev : Option Bool) (val : Option Val)
+theorem invL_putChars (c : Cfg) (h12 : c.fix12 = true) (hcb : CbOK c) (s : St) (p : ObjId) (x : Cid) (ev : Option Bool) (val : Option Val)
     (h : InvL c s) (hl : Live s p) : InvL c (putChars c s p x ev val) := by
   have h1 := invL_putSub c s p x ev h hl.a hl.u hl.lt hl.nl
   have l1 := live_of_rel (rel_putSub c s p x ev) (invA_putSub c s p x ev hl.a) hl
   simp only [putChars]
   split
   · exact h1
-  · exact invL_putVal c h12 (hcb x) _ p _ h1 l1.a l1.u l1.lt l1.nl
+  · split
+    · simp only [failVal, hcb.fixRaise, if_true]; exact h1
+    · rename_i hnf
+      have hnf' : cbFails c x = false := by simpa using hnf
+      refine invL_putVal c h12 _ p x _ h1 l1.a l1.u l1.lt l1.nl (fun hn => ?_) hnf'
+      rcases hcb.nul x hn with e | e
+      · exact e
+      · simp [cbFails, e] at hnf'
 
-theorem invL_onPut (c : Cfg) (h12 : c.fix12 = true) (h13 : c.fix13 = true) (hcb : ∀ x, c.cb x = Callback.none) (s : St) (p : ObjId) (x ev val cl)
+theorem invL_onPut (c : Cfg) (h12 : c.fix12 = true) (h13 : c.fix13 = true) (hcb : CbOK c) (s : St) (p : ObjId) (x ev val cl)
     (h : InvL c s) (hl : Live s p) : InvL c (onPut c s p x ev val cl).1 := by
   simp only [onPut]
-  have hr : InvL c (if (s.obj p).verified then respond (putChars c s p x ev val) p 204 Body.none
+  have hr : InvL c (if (s.obj p).verified then respond (putChars c s p x ev val) p (putCode c [(x, ev, val)]) (putBody c [(x, ev, val)])
            else respond s p 401 Body.none).1 ∧
-      Live (if (s.obj p).verified then respond (putChars c s p x ev val) p 204 Body.none
+      Live (if (s.obj p).verified then respond (putChars c s p x ev val) p (putCode c [(x, ev, val)]) (putBody c [(x, ev, val)])
            else respond s p 401 Body.none).1 p := by
     split
     · refine ⟨invL_respond c _ p _ _ (invL_putChars c h12 hcb s p x ev val h hl), ?_⟩
-      exact live_of_rel (Rel.trans (rel_putChars c s p x ev val) (Rel.weaken (rel_respond _ p 204 Body.none)))
-        (invA_respond _ p 204 Body.none (invA_putChars c s p x ev val hl.a)) hl
+      exact live_of_rel (Rel.trans (rel_putChars c s p x ev val) (Rel.weaken (rel_respond _ p _ _)))
+        (invA_respond _ p _ _ (invA_putChars c s p x ev val hl.a)) hl
     · exact ⟨invL_respond c _ p _ _ h, live_of_rel (rel_respond s p 401 Body.none) (invA_respond _ p 401 Body.none hl.a) hl⟩
   split
   · exact invL_closeP c _ p hr.1 hr.2.a hr.2.u hr.2.lt hr.2.nl
@@ -41,7 +48,7 @@ theorem invL_onPut (c : Cfg) (h12 : c.fix12 = true) (h13 : c.fix13 = true) (hcb 
 
 /-- the invariant together with the liveness facts of the acting connection, carried through the
     queries of one PUT -/
-theorem invL_putAll (c : Cfg) (h12 : c.fix12 = true) (hcb : ∀ x, c.cb x = Callback.none) (s : St) (p : ObjId)
+theorem invL_putAll (c : Cfg) (h12 : c.fix12 = true) (hcb : CbOK c) (s : St) (p : ObjId)
     (qs : List (Cid × Option Bool × Option Val)) (h : InvL c s) (hl : Live s p) :
     InvL c (putAll c s p qs) ∧ Live (putAll c s p qs) p := by
   apply putAll_pres (fun t => InvL c t ∧ Live t p) c p
@@ -50,17 +57,17 @@ theorem invL_putAll (c : Cfg) (h12 : c.fix12 = true) (hcb : ∀ x, c.cb x = Call
            live_of_rel (rel_putChars c t p x ev val) (invA_putChars c t p x ev val ht.2.a) ht.2⟩
   · exact ⟨h, hl⟩
 
-theorem invL_onPutMany (c : Cfg) (h12 : c.fix12 = true) (h13 : c.fix13 = true) (hcb : ∀ x, c.cb x = Callback.none) (s : St) (p : ObjId) (qs cl)
+theorem invL_onPutMany (c : Cfg) (h12 : c.fix12 = true) (h13 : c.fix13 = true) (hcb : CbOK c) (s : St) (p : ObjId) (qs cl)
     (h : InvL c s) (hl : Live s p) : InvL c (onPutMany c s p qs cl).1 := by
   simp only [onPutMany]
-  have hr : InvL c (if (s.obj p).verified then respond (putAll c s p qs) p 204 Body.none
+  have hr : InvL c (if (s.obj p).verified then respond (putAll c s p qs) p (putCode c qs) (putBody c qs)
            else respond s p 401 Body.none).1 ∧
-      Live (if (s.obj p).verified then respond (putAll c s p qs) p 204 Body.none
+      Live (if (s.obj p).verified then respond (putAll c s p qs) p (putCode c qs) (putBody c qs)
            else respond s p 401 Body.none).1 p := by
     split
     · have ha := invL_putAll c h12 hcb s p qs h hl
       refine ⟨invL_respond c _ p _ _ ha.1, ?_⟩
-      exact live_of_rel (rel_respond _ p 204 Body.none) (invA_respond _ p 204 Body.none ha.2.a) ha.2
+      exact live_of_rel (rel_respond _ p _ _) (invA_respond _ p _ _ ha.2.a) ha.2
     · exact ⟨invL_respond c _ p _ _ h, live_of_rel (rel_respond s p 401 Body.none) (invA_respond _ p 401 Body.none hl.a) hl⟩
   split
   · exact invL_closeP c _ p hr.1 hr.2.a hr.2.u hr.2.lt hr.2.nl
@@ -70,7 +77,7 @@ theorem invL_setPrepared (c : Cfg) (s : St) (f : Addr → Option (List Pid)) (h 
   intro q x hs
   exact lok_frame c s _ q x (h q x hs) rfl rfl (fun g => g) rfl rfl rfl (fun g => g)
 
-theorem invL_onReq (c : Cfg) (h12 : c.fix12 = true) (h13 : c.fix13 = true) (hcb : ∀ x, c.cb x = Callback.none) (s : St) (p : ObjId) (r : Req)
+theorem invL_onReq (c : Cfg) (h12 : c.fix12 = true) (h13 : c.fix13 = true) (hcb : CbOK c) (s : St) (p : ObjId) (r : Req)
     (h : InvL c s) (hl : Live s p) : InvL c (onReq c s p r).1 := by
   simp only [onReq]
   split
@@ -125,6 +132,7 @@ theorem hf_clientUpdate (c : Cfg) (s : St) (x : Cid) (v : Val) (sd : Option Addr
     · rw [hf_writeVal]; rfl
     · rw [hf_writeVal]; rfl
     · rw [hf_writeVal]; rfl
+    · rfl
   have h3 : (match (runCallback c (setVal s x v) x v).value x with
     | some u => if (runCallback c (setVal s x v) x v).value x ≠ s.value x then publish c (runCallback c (setVal s x v) x v) x u sd
                 else runCallback c (setVal s x v) x v
@@ -158,9 +166,13 @@ theorem hf_putChars (c : Cfg) (s : St) (p : ObjId) (x : Cid) (ev : Option Bool) 
     (putChars c s p x ev val).handoffs = s.handoffs := by
   simp only [putChars]; split
   · exact hf_putSub c s p x ev
-  · simp only [putVal]
-    show (discardStale c _ _ x).handoffs = _
-    rw [hf_discardStale, hf_clientUpdate, hf_putSub]
+  · split
+    · simp only [failVal]; split
+      · exact hf_putSub c s p x ev
+      · exact hf_putSub c s p x ev
+    · simp only [putVal]
+      show (discardStale c _ _ x).handoffs = _
+      rw [hf_discardStale, hf_clientUpdate, hf_putSub]
 theorem hf_onReq (c : Cfg) (s : St) (p : ObjId) (r : Req) : (onReq c s p r).1.handoffs = s.handoffs := by
   simp only [onReq]; split
   · rfl
@@ -169,7 +181,7 @@ theorem hf_onReq (c : Cfg) (s : St) (p : ObjId) (r : Req) : (onReq c s p r).1.ha
     · rfl
     · rename_i x ev val cl
       simp only [onPut]
-      have hr : (if (s.obj p).verified then respond (putChars c s p x ev val) p 204 Body.none
+      have hr : (if (s.obj p).verified then respond (putChars c s p x ev val) p (putCode c [(x, ev, val)]) (putBody c [(x, ev, val)])
            else respond s p 401 Body.none).1.handoffs = s.handoffs := by
         split
         · rw [hf_respond, hf_putChars]
@@ -179,7 +191,7 @@ theorem hf_onReq (c : Cfg) (s : St) (p : ObjId) (r : Req) : (onReq c s p r).1.ha
       · exact hr
     · rename_i qs cl
       simp only [onPutMany]
-      have hr : (if (s.obj p).verified then respond (putAll c s p qs) p 204 Body.none
+      have hr : (if (s.obj p).verified then respond (putAll c s p qs) p (putCode c qs) (putBody c qs)
            else respond s p 401 Body.none).1.handoffs = s.handoffs := by
         split
         · rw [hf_respond]
@@ -227,7 +239,7 @@ theorem handoffs_step (c : Cfg) (s : St) (e : Ev) (hw : notWorker e) (h0 : s.han
   | idleSweep => exact h0
   | stop => exact h0
 
-theorem invL_step (c : Cfg) (h12 : c.fix12 = true) (h13 : c.fix13 = true) (hcb : ∀ x, c.cb x = Callback.none) (s : St) (e : Ev) (h : InvL c s)
+theorem invL_step (c : Cfg) (h12 : c.fix12 = true) (h13 : c.fix13 = true) (hcb : CbOK c) (s : St) (e : Ev) (h : InvL c s)
     (hG : Good s) (hr : reuseCond s e) (hw : notWorker e) (h0 : s.handoffs = []) : InvL c (step c s e).1 := by
   cases e with
   | tick dt =>
@@ -277,7 +289,7 @@ theorem invL_step (c : Cfg) (h12 : c.fix12 = true) (h13 : c.fix13 = true) (hcb :
   | idleSweep => exact invL_idleSweep c s h hG.a
   | stop => exact invL_stop c s h hG.a
 
-theorem invL_run_from (c : Cfg) (h12 : c.fix12 = true) (h13 : c.fix13 = true) (hcb : ∀ x, c.cb x = Callback.none) (tr : List Ev) (s : St)
+theorem invL_run_from (c : Cfg) (h12 : c.fix12 = true) (h13 : c.fix13 = true) (hcb : CbOK c) (tr : List Ev) (s : St)
     (h : InvL c s) (hG : Good s) (hr : ReuseOK c s tr) (hw : NoWorker tr) (h0 : s.handoffs = []) :
     InvL c (run c s tr).1 := by
   induction tr generalizing s with
@@ -290,7 +302,7 @@ theorem invL_run_from (c : Cfg) (h12 : c.fix12 = true) (h13 : c.fix13 = true) (h
       ⟨invA_step c h13 s e hG.a, cleanInv_step c s e hG.a hG.clean, uniqInv_step c s e hG.uniq hr.1⟩ hr.2
       (fun e' he' => hw e' (List.mem_cons_of_mem _ he')) (handoffs_step c s e hwe h0)
 
-theorem invL_run (c : Cfg) (h12 : c.fix12 = true) (h13 : c.fix13 = true) (hcb : ∀ x, c.cb x = Callback.none) (tr : List Ev)
+theorem invL_run (c : Cfg) (h12 : c.fix12 = true) (h13 : c.fix13 = true) (hcb : CbOK c) (tr : List Ev)
     (hr : ReuseOK c (init c) tr) (hw : NoWorker tr) : InvL c (run c (init c) tr).1 :=
   invL_run_from c h12 h13 hcb tr _ (invL_init c) (good_init c) hr hw rfl
 
